@@ -904,8 +904,12 @@ class Gen:
         self.generics: list[dict] = []
 
     # -- helpers
-    def ver(self):
-        if self.feat["mixed"] and self.rng.random() < 0.35:
+    def ver(self, in_func=True):
+        # "newer_only_in_funcs": outside function bodies everything is v17, so that the newest opset of the
+        # model is required only by function bodies
+        if self.feat.get("newer_only_in_funcs") and not in_func:
+            return 17
+        if self.feat["mixed"] and self.rng.random() < (0.6 if self.feat.get("newer_only_in_funcs") else 0.35):
             return self.rng.choice(OPSET_VERS)
         return 17
 
@@ -945,9 +949,15 @@ class Gen:
                 if rng.random() < 0.5:
                     names = UNARY if self.feat["rmax"] else [u for u in UNARY if u not in ("rmax", "split0")]
                     name = rng.choice(names)
-                    stmts.append(["op", name, self.ver(), [self.pick(types, "f")]])
+                    if self.feat.get("newer_only_in_funcs") and not in_func and depth > 0 and rng.random() < 0.6:
+                        name = "split0"  # a node whose un-adapted form still passes the basic checker, in a body
+                    if name == "split0" and self.feat.get("newer_only_in_funcs"):
+                        stmts.append(["op", name, 17, [self.pick(types, "f")]])
+                        types.append("f")
+                        continue
+                    stmts.append(["op", name, self.ver(in_func), [self.pick(types, "f")]])
                 else:
-                    stmts.append(["op", rng.choice(BINARY), self.ver(),
+                    stmts.append(["op", rng.choice(BINARY), self.ver(in_func),
                                   [self.pick(types, "f"), self.pick(types, "f")]])
                 types.append("f")
             elif r < 0.47:
@@ -965,7 +975,7 @@ class Gen:
                 nout = rng.choice([1, 1, 2])
                 tb = self.gen_body(types, [], rng.randrange(0, 4), nout, depth + 1, in_func)
                 eb = self.gen_body(types, [], rng.randrange(0, 4), nout, depth + 1, in_func)
-                stmts.append(["if", self.pick(types, "b"), tb, eb, self.ver() if rng.random() < 0.3 else 17])
+                stmts.append(["if", self.pick(types, "b"), tb, eb, self.ver(in_func) if rng.random() < 0.3 else 17])
                 types.extend(["f"] * nout)
             elif r < 0.72 and self.feat["loop"] and depth < 3:
                 ns = rng.choice([1, 1, 2])
@@ -999,7 +1009,7 @@ class Gen:
                 stmts.append(call)
                 types.extend(["f"] * fs["nout"])
             else:
-                stmts.append(["op", rng.choice(BINARY), self.ver(),
+                stmts.append(["op", rng.choice(BINARY), self.ver(in_func),
                               [self.pick(types, "f"), self.pick(types, "f")]])
                 types.append("f")
         return stmts
@@ -1174,6 +1184,28 @@ class Gen:
         types = list(args)
         n = size if size is not None else rng.randrange(2, 9)
         stmts = self.gen_stmts(types, n, 0)
+        forced = []
+        if self.feat.get("newer_only_in_funcs") and self.feat["func"]:
+            # the model's newest opset is required only inside a function body that is called at top level,
+            # while a body graph holds a v17 node whose un-adapted form still passes the basic checker
+            fidx = len(self.funcs)
+            self.funcs.append({"name": f"fn{fidx}", "domain": rng.choice(["spox.function", "dom.a"]), "nin": 1,
+                               "nout": 1, "body": {"stmts": [["op", rng.choice(["identity", "neg", "abs"]),
+                                                              rng.choice([18, 19, 20, 21]), [0]]], "outs": [1]}})
+            stmts.append(["call", fidx, [self.pick(types, "f")]])
+            types.append("f")
+            forced.append(len(types) - 1)
+            src = self.pick(types, "f")
+            if "b" in types and rng.random() < 0.6:
+                stmts.append(["if", self.pick(types, "b"),
+                              {"stmts": [["op", "split0", 17, [src]]], "outs": [len(types)]},
+                              {"stmts": [], "outs": [src]}, 17])
+            else:
+                base = len(types)
+                stmts.append(["loop", rng.randrange(1, 3), [src],
+                              {"stmts": [["op", "split0", 17, [base + 2]]], "outs": [base + 3]}, 17])
+            types.append("f")
+            forced.append(len(types) - 1)
         fs = [i for i, t in enumerate(types) if t == "f" and i >= len(args)]
         if not fs:
             stmts.append(["op", "neg", 17, [self.pick(types, "f")]])
@@ -1181,7 +1213,7 @@ class Gen:
             fs = [len(types) - 1]
         nout = rng.choice([1, 1, 2, 3])
         outs = [rng.choice(fs[-3:]) if rng.random() < 0.6 else rng.choice(fs) for _ in range(nout)]
-        outs = list(dict.fromkeys(outs))
+        outs = list(dict.fromkeys(outs + forced))
         spec = {
             "args": args,
             "inputs": [[f"x{i}", i] for i in range(len(args))],
